@@ -12,7 +12,7 @@ open Secp.Spec Secp.FOp
 
 /-- non-aliased `AddNonConst(&a, &b, &r)` -/
 def addNC3 (a b : Jac) : Jac :=
-  match runEntry Secp.Gen.Formulas.AddNonConst [a.1, a.2.1, a.2.2, b.1, b.2.1, b.2.2, 0, 0, 0] [] with
+  match runNamed "AddNonConst" [a.1, a.2.1, a.2.2, b.1, b.2.1, b.2.2, 0, 0, 0] [] with
   | some (r, _) => (rget r 6, rget r 7, rget r 8)
   | none => Jac.inf
 
@@ -72,7 +72,7 @@ inductive RecErr where
 
 /-- `DecompressY` via the generated formula program; returns the normalised y -/
 def decompressYJ (x : Nat) (odd : Bool) : Option Nat :=
-  match runEntry Secp.Gen.Formulas.DecompressY [x, 0] [odd] with
+  match runNamed "DecompressY" [x, 0] [odd] with
   | some (r, some true) => some (rget r 1 % P)
   | _ => none
 
